@@ -4,5 +4,7 @@ CONSTANTS Procs = {"p1", "p2"}
           MaxFail = 1
           Same = TRUE
           Pre = FALSE
+          Modes = {"ok", "raise", "cancel"}
+          MaxExc = 1
 INVARIANT Emit
 CHECK_DEADLOCK FALSE
